@@ -495,6 +495,9 @@ def check_power_dagger(ctx):
 
 
 def run(ctx):
+    from ..lints import check_caches
+
+    check_caches(ctx, "C07-D5 no-hidden-state", ['circuits._gates'])
     check_power_dagger(ctx)
     check_dagger_semantics(ctx, "C07-D6 dagger-semantics")
     ctx.floor("C07-D6", 12)
